@@ -13,7 +13,7 @@ alpha-normalised, log blocks and error texts removed.
 import re
 
 from .ast import is_log_block, walk
-from .flat import Config, Run, explore, run_body, show, showv, Unsupported, NeedChoice
+from .flat import Config, Run, explore, run_body, show, showv, Unsupported, NeedChoice, is_unk
 from . import machine as mc
 
 MAX_PATHS = 1500
@@ -51,6 +51,7 @@ def tabulate_generic(item, cfg, classes, has_char_param):
     def runner(run):
         env = {}
         i = 0
+        run.param_families(item.get("sig"))
         for p in item["sig"]["params"]:
             if p.get("name") == "self":
                 env["self"] = ("obj", "self")
@@ -64,7 +65,11 @@ def tabulate_generic(item, cfg, classes, has_char_param):
                     env[nm] = run.choose("acq", "param%d" % i, [(c, ("ch", c)) for c in all_samples])
                 else:
                     env[nm] = ("unk", "p%d" % i if len(names) == 1 else "p%d.%s" % (i, nm))
-        return run_body(run, item["body"], env)
+        out = run_body(run, item["body"], env)
+        if run.ret_ty == "bool" and out[0] in ("value", "return") and len(out) > 1 and is_unk(out[1]) and not (isinstance(out[1], tuple) and out[1][0] == "closure"):
+            # a boolean answer that is an expression: the two answers are two paths (`pred(c)` and `if pred(c) {true} else {false}` agree)
+            out = (out[0], run.truth(out[1], None))
+        return out
 
     paths = explore(cfg, runner, max_paths=MAX_PATHS)
     groups = {}
@@ -300,7 +305,7 @@ def area_nf(ast, crate, mods, exclude_names=(), skip_types=(), known_keys=None, 
             key = "%s#%d" % (base, n)
             n += 1
         st = (it.get("self_ty") or "").replace(" ", "")
-        inl = {nm: x for nm, x in new_private.items() if not x.get("self_ty") or (x.get("self_ty") or "").replace(" ", "") == st}
+        inl = {nm: dict(x, new_private=True) for nm, x in new_private.items() if not x.get("self_ty") or (x.get("self_ty") or "").replace(" ", "") == st}
         r = nf_function(it, inline=inl, consts=consts)
         if r[0] == "paths":
             res[key] = {"kind": "paths", "cells": mc.to_json({key: r[1]})[key]}
